@@ -92,6 +92,7 @@ func drawPipe(s Src, name string, latency bool) rt.PipeConfig {
 	case 2:
 		c.WriteMax = []int{20, 0, 0}
 	}
+	c.EOFWithData = s.Choose("t.eofdata", 3) == 2
 	if latency && s.Choose("t.lat", 4) == 3 {
 		c.Latency = time.Duration(1+s.Choose("t.latms", 2000)) * time.Millisecond
 	}
